@@ -93,6 +93,7 @@ func runC12Cell(t *testing.T, l lat, rep *Report, boundaryOnly bool) (fails []c1
 			c.ProbeTimeout = 300 * time.Millisecond
 			c.IndirectChecks = 1
 			c.DisableTcpPings = true
+			c.DelegateProtocolMin, c.DelegateProtocolMax, c.DelegateProtocolVersion = 2, 5, 4 // all distinct
 			if name == pairNamesS(l) {
 				c.Ping = sPing
 			} else {
@@ -161,7 +162,7 @@ func runC12Cell(t *testing.T, l lat, rep *Report, boundaryOnly bool) (fails []c1
 			if m.meta > 0 {
 				meta = payloadOf(m.meta, m.meta > 100)
 			}
-			a := &ml.VAlive{Incarnation: m.inc, Node: name, Addr: ip4(200), Port: m.port, Meta: meta, Vsn: []uint8{1, 5, 3, 0, 1, 0}}
+			a := &ml.VAlive{Incarnation: m.inc, Node: name, Addr: ip4(200), Port: m.port, Meta: meta, Vsn: []uint8{1, 5, 3, 1, 6, 3}}
 			p.Tap = nil
 			must(s.M.VEncodeAndSendMsg(rAddr, r.Name, ml.VAliveMsg, a))
 			settle()
@@ -173,7 +174,7 @@ func runC12Cell(t *testing.T, l lat, rep *Report, boundaryOnly bool) (fails []c1
 			if wantPort == 0 || l.Enc == "v0" {
 				wantPort = 7946 // documented: absent port (and protocol 1) means the configured port
 			}
-			if rec == nil || rec.State != ml.StateAlive || rec.Incarnation != m.inc || !bytes.Equal(rec.Addr, ip4(200)) || rec.Port != wantPort || !bytes.Equal(rec.Meta, meta) || rec.Vsn != [6]uint8{1, 5, 3, 0, 1, 0} {
+			if rec == nil || rec.State != ml.StateAlive || rec.Incarnation != m.inc || !bytes.Equal(rec.Addr, ip4(200)) || rec.Port != wantPort || !bytes.Equal(rec.Meta, meta) || rec.Vsn != [6]uint8{1, 5, 3, 1, 6, 3} {
 				fail("alive", "sent %s i%d port %d meta %dB; receiver holds %s", name[:5], m.inc, m.port, len(meta), recStr(rec))
 				continue
 			}
@@ -231,7 +232,7 @@ func runC12Cell(t *testing.T, l lat, rep *Report, boundaryOnly bool) (fails []c1
 			gip := ip4(byte(150 + ctr%50))
 			gaddr := fmt.Sprintf("%s:7946", gip)
 			for _, n := range []*node{s, r} {
-				n.M.VAliveNode(&ml.VAlive{Incarnation: 1, Node: ghost, Addr: gip, Port: 7946, Vsn: []uint8{1, p.peerPMax(), 2, 0, 0, 0}}, nil, false)
+				n.M.VAliveNode(&ml.VAlive{Incarnation: 1, Node: ghost, Addr: gip, Port: 7946, Vsn: []uint8{1, p.peerPMax(), 2, 2, 5, 4}}, nil, false)
 			}
 			advance(time.Microsecond)
 			p.drainQueues()
@@ -324,7 +325,7 @@ func runC12Cell(t *testing.T, l lat, rep *Report, boundaryOnly bool) (fails []c1
 			for i := 0; i < k; i++ {
 				nm := fresh(i%2 == 1)
 				names = append(names, nm)
-				a := &ml.VAlive{Incarnation: 3, Node: nm, Addr: ip4(201), Port: 7946, Meta: payloadOf(i*7, true), Vsn: defaultVsn}
+				a := &ml.VAlive{Incarnation: 3, Node: nm, Addr: ip4(201), Port: 7946, Meta: payloadOf(i*7, true), Vsn: c12Vsn}
 				buf, _ := ml.VEncode(ml.VAliveMsg, a, l.NewTime)
 				s.M.VQueueBroadcast(nm, buf, nil)
 			}
@@ -367,9 +368,10 @@ func runC12Cell(t *testing.T, l lat, rep *Report, boundaryOnly bool) (fails []c1
 					s.D.Local, r.D.Local = payloadOf(us, true), payloadOf(us+3, false)
 				}
 				extra := fresh(true)
-				s.M.VAliveNode(&ml.VAlive{Incarnation: 9, Node: extra, Addr: ip4(202), Port: 7946, Meta: payloadOf(33, false), Vsn: defaultVsn}, nil, false)
+				s.M.VAliveNode(&ml.VAlive{Incarnation: 9, Node: extra, Addr: ip4(202), Port: 7946, Meta: payloadOf(33, false), Vsn: c12Vsn}, nil, false)
 				advance(time.Microsecond)
 				sm, rm := len(s.D.Merged), len(r.D.Merged)
+				incS, incR := s.M.VSnapshot().Incarnation, r.M.VSnapshot().Incarnation
 				err := s.M.VPushPullNode(rAddr, r.Name, join)
 				settle()
 				cases++
@@ -380,6 +382,16 @@ func runC12Cell(t *testing.T, l lat, rep *Report, boundaryOnly bool) (fails []c1
 				rec := findRec(r.M.VSnapshot(), extra)
 				if rec == nil || rec.State != ml.StateAlive || rec.Incarnation != 9 || !bytes.Equal(rec.Meta, payloadOf(33, false)) {
 					fail("push/pull", "remote list entry did not arrive intact: %s", recStr(rec))
+				}
+				// the initiator's own entry, version vector included, as each side sees it
+				want := s.Cfg.BuildVsnArray()
+				if me, there := findRec(s.M.VSnapshot(), s.Name), findRec(r.M.VSnapshot(), s.Name); me == nil || there == nil || me.Vsn != [6]uint8(want) || there.Incarnation > me.Incarnation || (there.Incarnation == me.Incarnation && there.Vsn != me.Vsn) {
+					fail("push/pull", "the initiator advertises version vector %v (record %s); the host holds %s", want, recStr(me), recStr(there))
+				}
+				// (in the cells where the harness introduced the peers with a lowered protocol maximum the
+				// peers rightly correct that entry: only the cells with truthful introductions are judged)
+				if a, bb := s.M.VSnapshot().Incarnation, r.M.VSnapshot().Incarnation; p.peerPMax() == 5 && (a != incS || bb != incR) {
+					fail("push/pull", "an exchange between two healthy nodes made one of them refute (incarnations %d->%d, %d->%d)", incS, a, incR, bb)
 				}
 				if us > 0 {
 					if len(r.D.Merged) != rm+1 || !bytes.Equal(r.D.Merged[rm], s.D.Local) || r.D.MergedJoin[rm] != join {
@@ -485,3 +497,7 @@ func TestC12(t *testing.T) {
 		}
 	}
 }
+
+// c12Vsn: version vector of the third-party members in these worlds (their
+// delegate range must contain the pair's delegate version 4).
+var c12Vsn = []uint8{1, 5, 2, 2, 5, 4}
